@@ -208,6 +208,9 @@ pub enum PolKind {
     RefuseAbove(usize),
     /// +1, refuses any size above M
     Plus1RefuseAbove(usize),
+    /// never refuses, but answers every other request with the unchanged size (then +1): a policy
+    /// that pauses before it lets the buffer grow further
+    StutterPlus1,
 }
 
 #[derive(Default)]
@@ -241,6 +244,14 @@ impl BufPolicy for HPolicy {
             PolKind::Plus1RefuseAbove(m) => {
                 if cur + 1 > m {
                     None
+                } else {
+                    Some(cur + 1)
+                }
+            }
+            PolKind::StutterPlus1 => {
+                // the parity of all requests so far (shared log, survives set_policy) decides
+                if self.log.calls.borrow().len() % 2 == 0 {
+                    Some(cur)
                 } else {
                     Some(cur + 1)
                 }
